@@ -83,6 +83,17 @@ def gen(rng):
         for j in range(rng.choice([1, 1, 2])):
             TG.add_malformed(rng, steps, rng.choice(made)[0], rng.choice(['empty', 'nopath', 'binary', 'only_header', 'truncated']), 'n%d' % j)
     pat = gen_pattern(rng, names, L['home'])
+    ht_ = G.home_trash_of(L['env'])
+    in_home = [m_ for m_ in made if m_[0] == ht_ and len(m_[1].encode('utf-8', 'surrogateescape')) < 200 and '\n' not in m_[1]]
+    if in_home and rng.random() < 0.08:
+        # the same path trashed a second time (report.txt, report.txt_1: two entries, one original location), and often the
+        # pattern is exactly that path, without any wildcard: an original location does not identify ONE entry
+        tdir_, nm_, loc_, d_ = rng.choice(in_home)
+        if not any(s_[1] == tdir_ + '/info/' + nm_ + '_1.trashinfo' for s_ in steps):
+            G.add_trashed(steps, tdir_, nm_ + '_1', TG.pct(loc_), TG.iso(TG.rand_date(rng)), rng.choice(['file', 'dir']), tag='again')
+            made.append((tdir_, nm_ + '_1', loc_, None))
+            if rng.random() < 0.6 and not any(c in loc_ for c in '*?['):
+                pat = loc_
     faults = []
     dirs_made = [m for m in made if any(st_[0] == 'd' and st_[1] == m[0] + '/files/' + m[1] for st_ in steps)]
     if dirs_made and rng.random() < 0.12:
